@@ -528,6 +528,20 @@ func BVBin(op string, a, b *Term) *Term {
 	if r := bvfold(op, a, b); r != nil {
 		return r
 	}
+	if (op == "bvudiv" || op == "bvurem") && b.IsConst() && !a.bound && a.sort.W >= 16 && b.val.Sign() > 0 && new(big.Int).And(b.val, new(big.Int).Sub(b.val, big.NewInt(1))).Sign() != 0 {
+		// unsigned division by a constant that is not a power of two: an uninterpreted quotient pinned down
+		// exactly by  c*q <= x < c*q + c  (no divider circuit; equal dividends give equal quotients by congruence)
+		w := a.sort.W
+		q := App(fmt.Sprintf("udivc.%d.%s", w, b.val.String()), a.sort, a)
+		max := new(big.Int).Sub(new(big.Int).Lsh(big.NewInt(1), uint(w)), big.NewInt(1))
+		qmax := BVC(new(big.Int).Div(max, b.val), w)
+		cq := BVBin("bvmul", q, b)
+		AddFact(q, And(BVCmp("bvule", q, qmax), BVCmp("bvule", cq, a), BVCmp("bvult", BVBin("bvsub", a, cq), b)))
+		if op == "bvudiv" {
+			return q
+		}
+		return BVBin("bvsub", a, cq)
+	}
 	switch op {
 	case "bvadd":
 		if b.IsConst() && b.val.Sign() == 0 {
